@@ -1,5 +1,462 @@
-/- C03 — lexical scoping (stub; theorems follow). -/
-import ZygoVerif.Model.VM
+/-
+C03 — lexical scoping: closures capture where they were made, never the caller.
+
+Theorems about the scope machinery of the VM model (`Model/VM.lean`: `lexLookup` =
+`LexicalLookupSymbol`, `lookupUntilFn` = `LookupSymbolUntilFunction`, `lookupChain` =
+`LookupSymbolInParentChainOfClosures`, `closingNow` = `NewClosing`, the instructions
+`addScope`/`addFuncScope`/`removeScope`/`createClosure`), for **all** states, programs,
+histories and amounts of fuel. The model is tied to zygo/{environment,scopes,closing,vm,
+generator}.go by the correspondence channel `scope` (checks/C03.py); the reference semantics
+(closures by environment pointer) is `Spec/RefEval.lean`.
+
+1. `shadowing_innermost_first`  lookup returns the FIRST scope binding the name along an
+                                explicit search list (`lexChain`): live scopes of the current
+                                activation down to its function scope, then the captured
+                                scopes of the running closure and of its creators, then the
+                                template's captured scopes.
+2. `no_dynamic_leak`            the scope found is above the innermost live function boundary,
+                                or captured (by the running closure, a creator of it, or its
+                                template) — never a `CallerLocal`: a live scope below the
+                                boundary that was not captured. `closure_captures_no_caller_local`:
+                                what `CreateClosure` captures is exactly the part of the live
+                                stack above the boundary.
+3. `fresh_activation`           `AddScope`/`AddFuncScope` allocate a scope id held by no stack,
+                                no closure and no lazy argument, with no variables; proved
+                                from the invariant `WF` (all ids below the table size), which
+                                every function of the VM preserves (`wf_preserved`,
+                                `wf_reachable`); function bodies start with `AddFuncScope` and a
+                                self tail call re-enters at instruction 0.
+4. `capture_by_reference`       closures created while the live stack is the same hold the same
+                                scope ids; an assignment made through one is what the other
+                                reads (`shared_update`).
+5. `capture_outlives`           no function of the VM ever removes a scope cell, changes its
+                                boundary flag, or changes the captured stack / parent of an
+                                existing closure (`Ext`); popping a scope changes neither the
+                                table nor what a captured stack reads.
+6. `lookup_sound`               simulation statement against the reference environment (`Sim`),
+                                with the preserved part named in `sim_preserved_partial`.
+-/
+import ZygoVerif.Proofs.ScopeGen
+import ZygoVerif.Proofs.ScopeSim
 import ZygoVerif.Spec.RefEval
 namespace ZygoVerif.C03
+open ZygoVerif.Core ZygoVerif.VM ZygoVerif.Scope
+
+/-! ## 1. Shadowing follows the search list, innermost first -/
+
+/-- `LexicalLookupSymbol` returns the first scope of `lexChain` that binds the name, and the
+value bound there; no scope searched before it binds the name. -/
+theorem shadowing_innermost_first {s : St} {x : String} {id : Nat} {v : Val}
+    (h : lexLookup s x = some (id, v)) :
+    ∃ pre post, lexChain s = pre ++ id :: post ∧
+      (∀ j ∈ pre, (scopeOf s j).vars.lookup x = none) ∧ (scopeOf s id).vars.lookup x = some v := by
+  rw [lexLookup_eq] at h
+  exact firstBinding_some h
+
+/-- …and reports "not found" only when no searched scope binds the name. -/
+theorem lookup_none_iff (s : St) (x : String) :
+    lexLookup s x = none ↔ ∀ j ∈ lexChain s, (scopeOf s j).vars.lookup x = none := by
+  rw [lexLookup_eq]
+  constructor
+  · exact firstBinding_none
+  · intro h
+    cases hf : firstBinding s x (lexChain s) with
+    | none => rfl
+    | some r =>
+      obtain ⟨id, v⟩ := r
+      obtain ⟨pre, post, he, _, hv⟩ := firstBinding_some hf
+      have := h id (by simp [he])
+      rw [this] at hv
+      cases hv
+
+/-- A live scope of the current activation shadows every captured one: stage 1 wins. -/
+theorem live_scope_shadows_captured {s : St} {x : String} {id : Nat} {v : Val}
+    (h : firstBinding s x (aboveBoundary s s.linear) = some (id, v)) : lexLookup s x = some (id, v) := by
+  rw [lexLookup_eq, lexChain, List.append_assoc, firstBinding_append, h]
+  rfl
+
+/-! ### Concrete states (non-vacuity)
+
+`(def x 1) (defn f [] x) (defn g [x] (f)) (g 2)`, stopped inside `f`: scope 0 is the global
+scope (x ↦ 1), scope 1 the function scope of `g`'s activation (x ↦ 2), scope 2 the function
+scope of `f`'s activation; function objects 2/3 are `f`'s template and closure, 4/5 `g`'s. -/
+def inF : St :=
+  { fns := [{ name := "__main", closing := [some 0] }, { name := "builtin", user := true },
+            { name := "f", closing := [some 0] }, { name := "f", closing := [some 0], parent := some 0 },
+            { name := "g", nargs := 1, params := ["x"], closing := [some 0] },
+            { name := "g", nargs := 1, params := ["x"], closing := [some 0], parent := some 0 }],
+    scopes := [{ vars := [("x", .int 1#64)] },
+               { vars := [("x", .int 2#64)], isFunction := true, myFunction := some 4 },
+               { vars := [], isFunction := true, myFunction := some 2 }],
+    linear := [some 2, some 1, some 0], curfunc := 3 }
+
+/-- Inside `g`'s own activation, before the call of `f`. -/
+def inG : St := { inF with linear := [some 1, some 0], curfunc := 5 }
+
+example : lexLookup inF "x" = some (0, .int 1#64) := by decide
+example : lexLookup inG "x" = some (1, .int 2#64) := by decide
+example : lexChain inF = [2, 0, 2, 0] := by decide
+example : lexLookup inF "y" = none := by decide
+
+/-! ## 2. No dynamic-scope leak -/
+
+/-- A *caller's local*: a scope that is on the live stack strictly below the innermost
+function boundary (so it belongs to an activation further down the call stack, or is the
+global scope) and that the running function did not capture — neither through its own
+captured stack, nor through the captured stacks of the closures that created it, nor
+through the template recorded on its function scope. -/
+def CallerLocal (s : St) (id : Nat) : Prop :=
+  id ∈ belowBoundary s s.linear ∧ id ∉ capturedChain s ∧ id ∉ templateCaptured s s.linear
+
+/-- Where a name can be found. -/
+theorem no_dynamic_leak {s : St} {x : String} {id : Nat} {v : Val} (h : lexLookup s x = some (id, v)) :
+    id ∈ aboveBoundary s s.linear ∨ id ∈ capturedChain s ∨ id ∈ templateCaptured s s.linear := by
+  rw [lexLookup_eq] at h
+  have hm := firstBinding_mem h
+  simp only [lexChain, List.mem_append] at hm
+  rcases hm with (h1 | h2) | (h1 | h3)
+  · exact Or.inl h1
+  · exact Or.inr (Or.inl h2)
+  · exact Or.inl h1
+  · exact Or.inr (Or.inr h3)
+
+/-- …and therefore never in a caller's local (scope ids on a stack are distinct). -/
+theorem never_a_callers_local {s : St} {x : String} {id : Nat} {v : Val} (h : lexLookup s x = some (id, v))
+    (hnd : (idsOf s.linear).Nodup) : ¬ CallerLocal s id := by
+  rintro ⟨hb, hc, ht⟩
+  rcases no_dynamic_leak h with h1 | h2 | h3
+  · exact boundary_disjoint s s.linear hnd id h1 hb
+  · exact hc h2
+  · exact ht h3
+
+/-- The hypotheses are satisfiable and the statement is not empty: in `inF` the scope of
+`g`'s activation is a caller's local that binds `x`, and the lookup of `x` passes it by. -/
+example : CallerLocal inF 1 ∧ (scopeOf inF 1).vars.lookup "x" = some (.int 2#64) ∧
+    lexLookup inF "x" = some (0, .int 1#64) ∧ (idsOf inF.linear).Nodup := by
+  unfold CallerLocal; decide
+
+/-- What a closure captures: `CreateClosure` stores the scope ids of the live stack from its
+top down to and including the innermost function scope (the whole stack when there is no
+function scope above the bottom element: code running at top level), and the running
+function as parent. -/
+theorem createClosure_captures (n : Nat) (t : Nat) (s : St) :
+    let s' := ((exec (n+1) (.createClosure t)).run s).2
+    s'.fns = s.fns ++ [{ (fnOf s t) with closing := closingNow s, parent := some s.curfunc }] ∧
+    s'.scopes = s.scopes ∧ s'.linear = s.linear := by
+  refine ⟨?_, ?_, ?_⟩ <;> simp only [VM.exec, run_bind, incPc, run_modify, run_get, run_set, pushData] <;> rfl
+
+/-- The captured ids are exactly the part of the live stack above the boundary whenever a
+function scope is live above the bottom of the stack — so, the ids on a stack being
+distinct, no scope below the boundary (no caller's local) is ever captured. -/
+theorem closure_captures_no_caller_local (s : St) (htrim : trims (isFnScope s) s.linear = true)
+    (hnd : (idsOf s.linear).Nodup) :
+    idsOf (closingNow s) = aboveBoundary s s.linear ∧
+    ∀ id ∈ belowBoundary s s.linear, id ∉ idsOf (closingNow s) := by
+  have h1 : idsOf (closingNow s) = aboveBoundary s s.linear := by rw [idsOf_closingNow, htrim]; rfl
+  refine ⟨h1, fun id hb hc => ?_⟩
+  rw [h1] at hc
+  exact boundary_disjoint s s.linear hnd id hc hb
+
+example : trims (isFnScope inF) inF.linear = true ∧ idsOf (closingNow inF) = [2] ∧
+    belowBoundary inF inF.linear = [1, 0] := by decide
+
+/-- What the running closure will read from the captured stack later is what a lookup up to
+the boundary reads from the live stack now. -/
+theorem captured_reads_as_live (s : St) : aboveBoundary s (closingNow s) = aboveBoundary s s.linear :=
+  aboveBoundary_closingNow s
+
+/-! ## 3. Fresh activations -/
+
+/-- Every function of the VM (every instruction, `Run`, calls, `Apply`, `Force`, …), at
+every fuel, from every state, preserves `WF`: all scope ids held anywhere are below the size
+of the scope table, i.e. below the id the next `AddScope`/`AddFuncScope` will hand out. -/
+theorem wf_preserved (fuel : Nat) (i : Instr) (s : St) (w : WF s) : WF ((exec fuel i).run s).2 :=
+  ((allSafe' fuel).exec i s).2 w
+
+theorem wf_preserved_run (fuel : Nat) (s : St) (w : WF s) : WF ((run fuel).run s).2 :=
+  ((allSafe' fuel).run s).2 w
+
+theorem wf_preserved_text (fuel : Nat) (es : List Expr) (s : St) (w : WF s) : WF (runText fuel es s).2.1 :=
+  (runText_step fuel es s).2 w
+
+/-- States reachable from the initial interpreter by whole texts and by any function of the
+VM's mutual block. -/
+inductive Reachable : St → Prop
+  | init : Reachable initSt
+  | text (fuel : Nat) (es : List Expr) {s : St} : Reachable s → Reachable (runText fuel es s).2.1
+  | exec (fuel : Nat) (i : Instr) {s : St} : Reachable s → Reachable ((exec fuel i).run s).2
+  | run (fuel : Nat) {s : St} : Reachable s → Reachable ((run fuel).run s).2
+  | apply (fuel : Nat) (f : Val) (args : List Val) {s : St} : Reachable s → Reachable ((applyFn fuel f args).run s).2
+  | force (fuel : Nat) (id : Nat) {s : St} : Reachable s → Reachable ((forceLazy fuel id).run s).2
+
+theorem wf_reachable {s : St} (h : Reachable s) : WF s := by
+  induction h with
+  | init => exact wf_initSt
+  | text fuel es _ ih => exact wf_preserved_text fuel es _ ih
+  | exec fuel i _ ih => exact wf_preserved fuel i _ ih
+  | run fuel _ ih => exact wf_preserved_run fuel _ ih
+  | apply fuel f args _ ih => exact ((allSafe' fuel).applyFn f args _).2 ih
+  | force fuel id _ ih => exact ((allSafe' fuel).forceLazy id _).2 ih
+
+/-- `AddScopeInstr` (entering `let`, `letseq`, `newScope`, `for`) and `AddFuncScopeInstr`
+(entering a function body — by a call, by `apply`/`map`, or again after a self tail call)
+push a scope whose id no live or suspended stack, no closure and no lazy argument holds,
+and which has no variables yet. -/
+theorem fresh_activation (n : Nat) (s : St) (w : WF s) (i : Instr)
+    (hi : i = .addScope ∨ ∃ t, i = .addFuncScope t) :
+    let s' := ((exec (n+1) i).run s).2
+    let new := s.scopes.length
+    s'.linear = some new :: s.linear ∧ (scopeOf s' new).vars = [] ∧
+    new ∉ idsOf s.linear ∧ (∀ l ∈ s.suspended, new ∉ idsOf l) ∧
+    (∀ f ∈ s.fns, new ∉ idsOf f.closing) ∧ (∀ z ∈ s.lazies, new ∉ idsOf z.stack) ∧
+    (∀ id, id < new → scopeOf s' id = scopeOf s id) := by
+  have hfresh : s.scopes.length ∉ idsOf s.linear ∧ (∀ l ∈ s.suspended, s.scopes.length ∉ idsOf l) ∧
+      (∀ f ∈ s.fns, s.scopes.length ∉ idsOf f.closing) ∧ (∀ z ∈ s.lazies, s.scopes.length ∉ idsOf z.stack) :=
+    ⟨fun h => Nat.lt_irrefl _ (w.linear _ h), fun l hl h => Nat.lt_irrefl _ (w.suspended l hl _ h),
+     fun f hf h => Nat.lt_irrefl _ (w.closing f hf _ h), fun z hz h => Nat.lt_irrefl _ (w.lazies z hz _ h)⟩
+  rcases hi with rfl | ⟨t, rfl⟩
+  all_goals
+    refine ⟨?_, ?_, hfresh.1, hfresh.2.1, hfresh.2.2.1, hfresh.2.2.2, fun id hid => ?_⟩
+    · simp only [VM.exec, run_modify]
+    · simp [VM.exec, run_modify, scopeOf]
+    · simp [VM.exec, run_modify, scopeOf, List.getD_eq_getElem?_getD, List.getElem?_append_left hid]
+
+example : WF inF ∧ (inF.scopes.length = 3) := by
+  refine ⟨⟨?_, ?_, ?_, ?_⟩, rfl⟩ <;> decide
+
+/-- The code of every compiled function starts with `AddFuncScope` (`buildSexpFun`): every
+way of entering a function body — `CallFunction`, `Apply`, the `goto 0` of a self tail
+call — runs it first. -/
+theorem function_code_starts_with_addFuncScope (t : Nat) (b : List Instr) (gs gs' : GS)
+    (h : (finishTemplate t b).run gs = .ok ((), gs')) (ht : t < gs.fns.length) :
+    (gs'.fns.getD t {}).code.head? = some (.addFuncScope t) := by
+  simp only [finishTemplate, grun_modify, Except.ok.injEq, Prod.mk.injEq, true_and] at h
+  subst h
+  simp [List.getD_eq_getElem?_getD, ht]
+
+/-- A call in tail position to the function's own name is compiled either as an ordinary
+call (when the number of arguments does not fit the known template: fix of C02-K5) or as a
+self tail call, which ends with `goto 0` after leaving every scope opened since the function
+was entered, the function scope included: the next iteration runs `AddFuncScope` again and
+gets a fresh scope (fix fc05fc7). -/
+theorem self_tail_call_reenters_at_zero (isFn : Nat → Bool) (c : Ctx) (h : String) (args : List Expr)
+    (hc : (c.tail && h == c.funcname) = true) (gs gs' : GS) (code : List Instr) (t : Bool)
+    (hr : (compile isFn c (.call (.sym h) args)).run gs = .ok ((code, t), gs')) :
+    code = [.callExpr (.sym h) args] ∨
+    ∃ argcode, code = argcode ++ [.prepareCall h args.length] ++ List.replicate (c.scopes + 1) .removeScope ++ [.goto 0] := by
+  have key : ∀ (b : Bool) (f : Option FnObj),
+      (if b = true then (do
+          let code ← compileCallArgs isFn { c with tail := false } f 0 args
+          pure (code ++ [.prepareCall h args.length] ++ List.replicate (c.scopes + 1) .removeScope ++ [.goto 0], c.tail)
+          : G (List Instr × Bool))
+        else pure ([.callExpr (.sym h) args], c.tail)).run gs = .ok ((code, t), gs') →
+      code = [.callExpr (.sym h) args] ∨
+      ∃ argcode, code = argcode ++ [.prepareCall h args.length] ++ List.replicate (c.scopes + 1) .removeScope ++ [.goto 0] := by
+    intro b f hb
+    cases b with
+    | false =>
+      simp only [Bool.false_eq_true, if_false, grun_pure, Except.ok.injEq, Prod.mk.injEq] at hb
+      exact Or.inl hb.1.1.symm
+    | true =>
+      simp only [if_true, grun_bind] at hb
+      split at hb
+      · rename_i a gs1 _
+        simp only [grun_pure, Except.ok.injEq, Prod.mk.injEq] at hb
+        exact Or.inr ⟨a, hb.1.1.symm⟩
+      · cases hb
+  unfold compile at hr
+  simp only [hc, if_true, grun_bind, grun_get] at hr
+  exact key _ _ hr
+
+/-! ## 4. Capture by reference -/
+
+/-- The captured stack is a function of the live stack and of the boundary flags only. -/
+theorem closingNow_congr {s s' : St} (hl : s'.linear = s.linear) (hf : ∀ id, isFnScope s' id = isFnScope s id) :
+    closingNow s' = closingNow s := by
+  have : isFnScope s' = isFnScope s := funext hf
+  simp only [closingNow, hl, this]
+
+/-- Two closures created in one activation hold the same scope ids: if the VM went from `s`
+to `s'` (any instructions, any nested calls) and the live stack is the same again, a
+closure created in `s'` captures exactly the stack a closure created in `s` captured. -/
+theorem capture_by_reference {s s' : St} (w : WF s) (hstep : Ext s s') (hl : s'.linear = s.linear) :
+    closingNow s' = closingNow s := by
+  -- only the flags of ids on the live stack matter, and those are old ids
+  have key : ∀ (l : List (Option Nat)), (∀ id ∈ idsOf l, id < s.scopes.length) →
+      newClosing (isFnScope s') l = newClosing (isFnScope s) l := by
+    intro l hb
+    have hflag : ∀ id ∈ idsOf l, isFnScope s' id = isFnScope s id :=
+      fun id hid => (hstep.flags id (hb id hid)).1
+    have ht : ∀ (l : List (Option Nat)), (∀ id ∈ idsOf l, isFnScope s' id = isFnScope s id) →
+        trims (isFnScope s') l = trims (isFnScope s) l ∧
+        takeToBoundary (isFnScope s') l = takeToBoundary (isFnScope s) l := by
+      intro l
+      induction l with
+      | nil => intro _; exact ⟨rfl, rfl⟩
+      | cons o rest ih =>
+        intro h
+        cases o with
+        | none =>
+          have := ih (fun id hid => h id (by simpa [idsOf] using hid))
+          simp [trims, takeToBoundary, isFnElem, this.1, this.2]
+        | some j =>
+          have hj := h j (by simp [idsOf])
+          have := ih (fun id hid => h id (by simp [idsOf, hid]))
+          simp only [trims, takeToBoundary, isFnElem, hj, this.1, this.2]
+          exact ⟨rfl, rfl⟩
+    rw [newClosing_eq, newClosing_eq, (ht l hflag).1, (ht l hflag).2]
+  simp only [closingNow, hl]
+  exact key s.linear w.linear
+
+/-- Closures that hold the same captured stack read the same binding in every later state,
+and an assignment made through the scope one of them finds is what the other one reads. -/
+theorem shared_update (s : St) (x : String) (v w : Val) (id : Nat) (hid : id < s.scopes.length)
+    (closingA closingB : List (Option Nat)) (hsame : closingA = closingB)
+    (hfound : lookupUntilFn s x false closingA = some (id, w)) :
+    lookupUntilFn (setVarSt s id x v) x false closingB = some (id, v) := by
+  subst hsame
+  rw [lookupUntilFn_false_eq] at hfound ⊢
+  rw [aboveBoundary_congr (isFnScope_setVarSt s id x v)]
+  exact firstBinding_after_set s id x v hid _ w hfound
+
+/-- Counter: `(defn mk [x] [(fn [] (set x (+ x 1))) (fn [] x)])` — both closures of one
+activation hold `[3]`; after the first one assigns through it, the second one reads the new
+value. -/
+def counterSt : St :=
+  { fns := [{ name := "__main", closing := [some 0] }, { name := "builtin", user := true },
+            { name := "inc", closing := [some 3], parent := some 1 }, { name := "get", closing := [some 3], parent := some 1 }],
+    scopes := [{ vars := [] }, {}, {}, { vars := [("x", .int 5#64)], isFunction := true }],
+    linear := [some 0] }
+
+example : lookupUntilFn (setVarSt counterSt 3 "x" (.int 6#64)) "x" false (fnOf counterSt 3).closing
+    = some (3, .int 6#64) := by decide
+
+/-! ## 5. Captured variables outlive their activation -/
+
+/-- No function of the VM removes a scope cell, changes the function-boundary flag or the
+template of a cell, or changes the captured stack or the parent of an existing function
+object (or the scope stack of an existing lazy argument): the tables only grow. -/
+theorem capture_outlives (fuel : Nat) (i : Instr) (s : St) : Ext s ((exec fuel i).run s).2 :=
+  ((allSafe' fuel).exec i s).1
+
+theorem capture_outlives_run (fuel : Nat) (s : St) : Ext s ((run fuel).run s).2 := ((allSafe' fuel).run s).1
+
+theorem capture_outlives_text (fuel : Nat) (es : List Expr) (s : St) : Ext s (runText fuel es s).2.1 :=
+  (runText_step fuel es s).1
+
+/-- Leaving a scope (`RemoveScopeInstr`, also the epilogue of every function) pops the live
+stack and touches nothing else: the cell stays in the table with its variables, and every
+captured stack reads exactly what it read before. -/
+theorem pop_keeps_cells (n : Nat) (s : St) :
+    let s' := ((exec (n+1) .removeScope).run s).2
+    s'.scopes = s.scopes ∧ s'.fns = s.fns ∧
+    ∀ x cc l, lookupUntilFn s' x cc l = lookupUntilFn s x cc l := by
+  have hs : ((exec (n+1) .removeScope).run s).2.scopes = s.scopes ∧ ((exec (n+1) .removeScope).run s).2.fns = s.fns := by
+    simp only [VM.exec, run_bind, incPc, run_modify, popScope, run_get]
+    split <;> exact ⟨rfl, rfl⟩
+  refine ⟨hs.1, hs.2, fun x cc l => ?_⟩
+  have hfn : ∀ id, isFnScope ((exec (n+1) .removeScope).run s).2 id = isFnScope s id := by
+    intro id; simp only [isFnScope, scopeOf, hs.1]
+  cases cc with
+  | false =>
+    rw [lookupUntilFn_false_eq, lookupUntilFn_false_eq, aboveBoundary_congr hfn, firstBinding_congr hs.1]
+  | true =>
+    rw [lookupUntilFn_true_eq, lookupUntilFn_true_eq, aboveBoundary_congr hfn, firstBinding_congr hs.1]
+    congr 2
+    induction l with
+    | nil => rfl
+    | cons o rest ih =>
+      cases o with
+      | none => simpa [templateCaptured] using ih
+      | some j => simp only [templateCaptured, hfn, scopeOf, fnOf, hs.1, hs.2, ih]
+
+example : ((exec 1 .removeScope).run inF).2.scopes = inF.scopes ∧
+    (scopeOf ((exec 1 .removeScope).run inF).2 2).isFunction = true := by
+  have h := (pop_keeps_cells 0 inF).1
+  exact ⟨h, by simp only [scopeOf, h]; decide⟩
+
+/-! ## 6. Simulation against the reference environments
+
+`Sim ρ φ s rs env` (`Proofs/ScopeSim.lean`): along stages 1 and 2 of the VM's search list
+(`lexCore`), scope by scope, the reference state `rs` has the corresponding frames on the
+static chain of `env` (first occurrences, `ρ` maps scope ids to frame ids) with the
+corresponding variables (`φ` translates values), and the template's captured scopes add
+nothing. -/
+
+/-- In related states the VM's `LexicalLookupSymbol` and the reference evaluator's walk of
+the static chain find corresponding bindings, and fail together. -/
+theorem lookup_sound {ρ : Nat → Nat} {φ : Val → Val} {s : St} {rs : Ref.St} {env : Nat}
+    (h : Sim ρ φ s rs env) (x : String) :
+    (lexLookup s x).map (fun p => (ρ p.1, φ p.2)) = Ref.lookup rs env x :=
+  ZygoVerif.Scope.lookup_sound h x
+
+/-- `Sim` is satisfiable: `inF` (inside `f`, called from `g`) against the reference state
+with the global frame and `f`'s activation frame — whose parent is the global frame, not the
+frame of the caller `g`. -/
+def refInF : Ref.St :=
+  { frames := [{ vars := [("x", .int 1#64)] }, { vars := [("x", .int 2#64)], parent := some 0 }, { parent := some 0 }] }
+
+example : Sim (fun id => if id = 2 then 2 else if id = 1 then 1 else 0) id inF refInF 2 :=
+  ⟨by decide, by decide, by decide⟩
+
+example : Ref.lookup refInF 2 "x" = some (0, .int 1#64) := by decide
+
+/-- The full preservation statement: every step of the VM that the reference evaluator
+mirrors keeps the two related. -/
+def SimPreservedFull : Prop :=
+  ∀ (ρ : Nat → Nat) (φ : Val → Val) (s : St) (rs : Ref.St) (env : Nat), Sim ρ φ s rs env → WF s →
+    ∀ (fuel : Nat) (i : Instr), ∃ ρ' φ' rs' env', Sim ρ' φ' ((exec fuel i).run s).2 rs' env'
+
+/-- What is proved of it: entering a scope (`AddScopeInstr`: `let`, `letseq`, `newScope`,
+`for`) against the reference evaluator's `newFrame`. **Missing**: leaving a scope
+(`RemoveScopeInstr` — needs `ρ` injective on the chain), `def`/`set` (variables of one scope
+change on both sides), `CreateClosure` (needs the heap-wide invariant "the captured stack +
+parent chain of every closure corresponds to the environment of the reference closure" and a
+value translation `φ` that grows), call / return / self tail call (`AddFuncScope` on the
+callee's captured chain), `apply`/`map`, lazy arguments. Those are held by the 3-way
+correspondence of channel `scope`, not by a theorem. -/
+theorem sim_preserved_partial {ρ : Nat → Nat} {φ : Val → Val} {s : St} {rs : Ref.St} {env : Nat} (n : Nat)
+    (h : Sim ρ φ s rs env) (w : WF s)
+    (hrange : ∀ id ∈ lexCore s, ρ id < rs.frames.length)
+    (hparents : ∀ (i : Nat) (fr : Ref.Frame), rs.frames[i]? = some fr → ∀ p, fr.parent = some p → p < i)
+    (henv : env < rs.frames.length) :
+    Sim (fun id => if id = s.scopes.length then rs.frames.length else ρ id) φ
+      ((exec (n+1) .addScope).run s).2 (Ref.newFrame rs env).2 (Ref.newFrame rs env).1 := by
+  have : ((exec (n+1) .addScope).run s).2 = addScopeSt s := by simp only [VM.exec, run_modify]; rfl
+  rw [this]
+  exact sim_addScope h w hrange hparents henv
+
+/-! ## Fix C03-01: a shadowed self name is an ordinary call -/
+
+/-- Pre-fix `buildSexpFun`: `gen.funcname` was the function's name whatever the body binds.
+With that context the call `(f 1)` inside `(defn f [f] (f 1))` — where `f` is the
+parameter — was compiled as a jump back into the function itself. -/
+def hasGoto : List Instr → Bool
+  | [] => false
+  | .goto _ :: _ => true
+  | _ :: r => hasGoto r
+
+def codeOf (r : Except Unit ((List Instr × Bool) × GS)) : List Instr :=
+  match r with
+  | .ok ((code, _), _) => code
+  | .error _ => []
+
+theorem selfname_shadowed_counterexample :
+    hasGoto (codeOf ((compile (fun _ => false) { tail := true, funcname := "f" } (.call (.sym "f") [.int 1])).run
+      { fns := [] })) = true := by decide
+
+/-- The repaired generator clears `funcname` when the function binds its own name
+(`rebindsOwnName`), and then no call in the body is a self tail call. -/
+theorem selfname_shadowed_is_ordinary_call :
+    rebindsOwnName "f" ["f"] none [.call (.sym "f") [.int 1]] = true ∧
+    hasGoto (codeOf ((compile (fun _ => false) { tail := true, funcname := "" } (.call (.sym "f") [.int 1])).run
+      { fns := [] })) = false := by decide
+
+/-- Using the name as a value binds nothing: the jump is kept. -/
+theorem selfname_as_value_keeps_jump :
+    rebindsOwnName "lp" ["n", "acc"] none
+      [.cond [(.call (.sym "==") [.sym "n", .int 0], .sym "acc")]
+        (.call (.sym "lp") [.call (.sym "-") [.sym "n", .int 1], .call (.sym "cons") [.sym "lp", .sym "acc"]])] = false := by
+  decide
+
 end ZygoVerif.C03
